@@ -572,7 +572,12 @@ def eval_eri8(model, case):
         st, Y = call_impl(_eri_block, [gs[i] for i in o])
         if st != "ok":
             return {"detail": {"kind": "rejected", "impl": Y, "orient": list(o)}, "tag": tag}
-        Z.append(np.transpose(np.asarray(Y), _back_axes(o)))
+        Y = np.asarray(Y)
+        want = tuple(x for i in o for x in (len(shells[i].coeffs[0]), (shells[i].l + 1) * (shells[i].l + 2) // 2))
+        if Y.shape != want:
+            return {"detail": {"kind": "shape", "orient": list(o), "impl_shape": list(Y.shape),
+                               "expected_shape": list(want)}, "tag": tag, "nontrivial": True}
+        Z.append(np.transpose(Y, _back_axes(o)))
     with np.errstate(all="ignore"):
         d12, d34 = _pair_diag(gs[0], gs[1]), _pair_diag(gs[2], gs[3])
     sc = d12[:, :, :, :, None, None, None, None] * d34[None, None, None, None]
